@@ -13,7 +13,7 @@ RULE = ('per case 1-4 received bundles, each with one of the 2^5 combinations of
         'are decoded by the reference decoder and matched to their subject. Non-trivial: at least one report flag set with a report-to '
         'endpoint; distinct = digest of the case descriptors.')
 COMPONENTS = bc.COMPONENTS
-PROBES = ('out.deliver', 'out.forward', 'out.forward-frag', 'out.forward-impossible', 'out.forward-cl-error', 'out.forward-lookalike', 'out.delete', 'out.noroute', 'out.secfail', 'out.duplicate', 'rpt.seen', 'rpt.with_time',
+PROBES = ('out.deliver', 'out.forward', 'out.forward-frag', 'out.forward-impossible', 'out.forward-cl-error', 'out.forward-lookalike', 'out.deliver-fragments', 'out.delete', 'out.noroute', 'out.secfail', 'out.duplicate', 'rpt.seen', 'rpt.with_time',
           'probe.requested_but_missing')
 ASSUMPTIONS = ['a transmit route towards the report-to endpoint always exists', 'the statement is read as "only if": a missing report is counted as a probe, not a violation']
 CHUNK = 25
@@ -28,12 +28,13 @@ OCCURS = {
     'forward-impossible': {'received', 'deleted'},
     'forward-cl-error': {'received', 'deleted'},
     'forward-lookalike': {'received', 'forwarded'},
+    'deliver-fragments': {'received', 'delivered'},
     'delete': {'received', 'deleted'},
     'noroute': {'received'},
     'secfail': {'received', 'deleted'},
     'duplicate': set(),
 }
-DEST = {'deliver': 'dtn://n1/app', 'forward': 'dtn://far/app', 'forward-frag': 'dtn://mtu/app', 'forward-impossible': 'dtn://tiny/app', 'forward-cl-error': 'dtn://broken/app', 'forward-lookalike': 'dtn://n10/app', 'delete': 'dtn://drop/app', 'noroute': 'dtn://nowhere/app',
+DEST = {'deliver': 'dtn://n1/app', 'forward': 'dtn://far/app', 'forward-frag': 'dtn://mtu/app', 'forward-impossible': 'dtn://tiny/app', 'forward-cl-error': 'dtn://broken/app', 'forward-lookalike': 'dtn://n10/app', 'deliver-fragments': 'dtn://n1/app', 'delete': 'dtn://drop/app', 'noroute': 'dtn://nowhere/app',
         'secfail': 'dtn://n1/app', 'duplicate': 'dtn://n1/app'}
 
 
@@ -44,7 +45,7 @@ def gen(ch, tier):
         for bit in (rfc9171.FLAG_RPT_RECEPTION, rfc9171.FLAG_RPT_FORWARD, rfc9171.FLAG_RPT_DELIVERY, rfc9171.FLAG_RPT_DELETION, rfc9171.FLAG_STATUS_TIME):
             if ch.coin('flag', 1, 2):
                 flags |= bit
-        cases.append(dict(outcome=ch.choice('outcome', ('deliver', 'forward', 'forward-frag', 'forward-lookalike', 'forward-impossible', 'forward-cl-error', 'delete', 'noroute', 'secfail', 'duplicate')),
+        cases.append(dict(outcome=ch.choice('outcome', ('deliver', 'deliver-fragments', 'forward', 'forward-frag', 'forward-lookalike', 'forward-impossible', 'forward-cl-error', 'delete', 'noroute', 'secfail', 'duplicate')),
                           flags=flags, report_to=ch.choice('rpt', ('dtn://rpt/', 'dtn://rpt/', 'dtn:none', 'ipn:9.1')),
                           source=ch.choice('src', ('dtn://src/', 'ipn:3.1', 'ipn:977000.3.1')), seqno=cix, plen=ch.choice('plen', (5, 40, 400)), tag=cix + 1,
                           crc=ch.choice('crc', (1, 2))))
@@ -96,6 +97,26 @@ def _drive(run, plan, har):
             har.settle()
         mark = len(har.cl_out['n1'])
         har.advance(1000 * (1 + cix))
+        if case['outcome'] == 'deliver-fragments':
+            # the bundle arrives as two fragments: while the second is missing nothing has been delivered
+            pri = dict(flags=case['flags'], crc_type=case['crc'], destination=DEST[case['outcome']], source=case['source'], report_to=case['report_to'],
+                       create_time=820000000000, seqno=case['seqno'], lifetime=3600000)
+            body = bc.body(case['tag'], max(2, case['plen']))
+            frags = rfc9171.fragment(pri, [dict(type=1, num=1, flags=0, crc_type=case['crc'], btsd=body)], [len(body) // 2])
+            har.receive('n1', frags[0])
+            har.settle()
+            (early, _errs) = bc.decode_outputs(har.cl_out['n1'][mark:])
+            for rpt in early:
+                if bc.is_admin(rpt):
+                    try:
+                        body_rpt = rfc9171.decode_status_report(rfc9171.payload(rpt))
+                    except rfc9171.Malformed:
+                        continue
+                    if 'delivered' in body_rpt['asserted']:
+                        run.viols.append(('assertion', 'delivered-before-complete', 'case #%d: a report asserts delivery after the first of two fragments' % cix))
+                        return
+            mark = len(har.cl_out['n1'])
+            data = frags[1]
         rec = har.receive('n1', data)
         har.settle()
         outs = har.cl_out['n1'][mark:]
